@@ -1076,3 +1076,43 @@ pub fn short_crc_message(rng: &mut Rng) -> (Vec<u8>, GMsg) {
         }
     }
 }
+
+/// payloads whose frame checksum has a special value: 0x0000, 0xffff, a zero / 0x1b / 0x1a byte in
+/// either position (found by searching the last two payload bytes)
+pub fn crc_special_payloads(rng: &mut Rng, per_target: usize) -> Vec<Vec<u8>> {
+    let mut out = Vec::new();
+    let targets: [(u16, u16); 10] = [
+        (0xffff, 0x0000),
+        (0xffff, 0xffff),
+        (0x00ff, 0x0000),
+        (0xff00, 0x0000),
+        (0x00ff, 0x001b),
+        (0xff00, 0x1b00),
+        (0xffff, 0x1b1b),
+        (0x00ff, 0x001a),
+        (0xffff, 0x0101),
+        (0xffff, 0x1a1b),
+    ];
+    for (mask, val) in targets {
+        for _ in 0..per_target {
+            let n = rng.range(0, 9);
+            let mut p = alpha_bytes(rng, n);
+            p.push(0);
+            p.push(0);
+            let l = p.len();
+            'search: for a in 0..=255u8 {
+                for b in 0..=255u8 {
+                    p[l - 2] = a;
+                    p[l - 1] = b;
+                    let f = spec::frame(&p);
+                    let c = (f[f.len() - 2] as u16) | ((f[f.len() - 1] as u16) << 8);
+                    if c & mask == val {
+                        out.push(p.clone());
+                        break 'search;
+                    }
+                }
+            }
+        }
+    }
+    out
+}
